@@ -2105,7 +2105,12 @@ impl<W: std::io::Write + std::io::Seek> Encoder<W> {
             // of the stream
             let writer = self.writer.stream();
             writer.seek(std::io::SeekFrom::Start(self.start))?;
-            write_blocks(writer.by_ref(), self.blocks.blocks())
+            write_blocks(writer.by_ref(), self.blocks.blocks())?;
+
+            // the writer may be buffered (the `create` constructors
+            // wrap the file in a BufWriter), so make sure the rewritten
+            // blocks have reached it before reporting success
+            writer.flush().map_err(Error::Io)
         } else {
             Ok(())
         }
